@@ -182,6 +182,11 @@ func (g *Generator) AdjustEnv(env []*nri.KeyValue) {
 
 // AdjustArgs adjusts the process arguments in the OCI Spec.
 func (g *Generator) AdjustArgs(args []string) {
+	// a leading empty string is the marker ContainerAdjustment.UpdateArgs()
+	// uses for replacing arguments set by another plugin, not an argument
+	if len(args) != 0 && args[0] == "" {
+		args = args[1:]
+	}
 	if len(args) != 0 {
 		g.SetProcessArgs(args)
 	}
